@@ -175,6 +175,9 @@ pub fn wide_td(k: Kind, n: usize) -> TD {
     }
 }
 
+/// set by `main` for the thorough tier
+pub static THOROUGH: std::sync::atomic::AtomicBool = std::sync::atomic::AtomicBool::new(false);
+
 /// The extreme-size cases shared by the checks: terms nested 129..300 deep and compounds with
 /// 255..1000 components - beyond the random generators' bounds (depth 90, arity 130), inside every
 /// property's "any nesting depth / any number of components".  Labels rebuild the term in a replay.
@@ -182,6 +185,20 @@ pub fn extreme_cases() -> Vec<(String, TD)> {
     let mut out = vec![];
     if !big_stacks_available() {
         return out;
+    }
+    if THOROUGH.load(std::sync::atomic::Ordering::Relaxed) {
+        // thorough tier: further out (the lexical parser is quadratic in the length of its input, so the
+        // widths stay in the low thousands)
+        for depth in [600usize, 1000, 2000] {
+            for variant in [0usize, 1, 3] {
+                out.push((format!("deep:{}:{}", depth, variant), deep_td(depth, variant)));
+            }
+        }
+        for n in [2000usize, 3000] {
+            for k in [Kind::SetExt, Kind::Conj, Kind::Product, Kind::ImgExt] {
+                out.push((format!("wide:{}:{}", k.tag(), n), wide_td(k, n)));
+            }
+        }
     }
     for depth in [129usize, 200, 257, 300] {
         for variant in [0usize, 1, 3] {
